@@ -60,6 +60,9 @@ def step (s : State) (toks : List String) : State × String :=
       (s', s!"sel={r.selectedDelay} est={r.estimatedMaxDelay} links=[" ++
             ";".intercalate ((t.zip r.perLink).map (showOut t)) ++ "]")
     | none => (s, "bad-op")
+  | "looptrace" :: rest =>
+    -- the real event loop end to end on a virtual clock: monitor only, constant reply, no model state
+    if looptraceWellFormed rest then (s, "looptrace-ok") else (s, "bad-op")
   | _ => (s, "bad-op")
 
 end Srtla.Drv.Classifier
